@@ -668,9 +668,59 @@ def _selftest_reader():
     return len(BAD_TEXTS)
 
 
-def _binding_demo(ctx, docs, verdicts):
-    """Doctored copies of an accepted document must be rejected, each by the clause that was broken."""
-    names = set()
+DEMO_TEXT = """attribute \\top 1
+module \\top
+  wire width 2 input 0 \\a
+  wire width 1 input 1 \\clk
+  wire width 2 output 2 \\o
+  wire width 2 \\n
+  wire width 3 $1
+  cell \\top.child \\child
+    connect \\a \\a [1:0]
+    connect \\clk \\clk [0]
+    connect \\o \\o
+  end
+  cell $add $2
+    parameter \\A_SIGNED 0
+    parameter \\B_SIGNED 0
+    parameter \\A_WIDTH 2
+    parameter \\B_WIDTH 1
+    parameter \\Y_WIDTH 3
+    connect \\A \\a [1:0]
+    connect \\B 1'1
+    connect \\Y $1
+  end
+  connect \\n $1 [1:0]
+end
+module \\top.child
+  wire width 2 input 0 \\a
+  wire width 1 input 1 \\clk
+  attribute \\init 2'00
+  wire width 2 output 2 \\o
+  wire width 2 $1
+  process $2
+    assign $1 [1:0] \\a [1:0]
+    switch \\a [0]
+      case 1'1
+        assign $1 [0] 1'0
+    end
+  end
+  cell $dff $3
+    parameter \\WIDTH 2
+    parameter \\CLK_POLARITY 1
+    connect \\D $1 [1:0]
+    connect \\CLK \\clk [0]
+    connect \\Q \\o
+  end
+end
+"""
+
+
+def _binding_demo(ctx):
+    """A hand-written two-module document must be accepted and each doctored copy of it rejected by the clause
+    that was broken (independent of what amaranth emits)."""
+    good = rp.wf_document(rp.parse(DEMO_TEXT))
+    names = {m["name"] for m in good["mods"]}
 
     def mut(doc, fn):
         d = copy.deepcopy(doc)
@@ -714,21 +764,12 @@ def _binding_demo(ctx, docs, verdicts):
     muts = [(dup_connect, "ExactlyOneDriver"), (drive_input, "ExactlyOneDriver"), (missing_wire, "RefsExist"),
             (widen, "WidthsAgree"), (port_gap, "PortIdsDense"), (drop_port, "SubmoduleCellsMatch"), (dup_name, "UniqueNames"),
             (out_of_bounds, "SlicesInBounds")]
-    bad = None
-    for doc, v in zip(docs, verdicts):
-        if v[0] != "ACC" or v[1] < 2:
-            continue
-        doc = json.loads(doc) if isinstance(doc, str) else doc
-        names.clear()
-        names.update(m["name"] for m in doc["mods"])
-        try:
-            bad = [mut(doc, f) for f, _ in muts]
-        except (StopIteration, IndexError):
-            continue
-        break
-    if bad is None:
-        raise MachineryError("binding demo: no accepted document with a submodule, a connection and a used input port")
-    vs = validate_documents(ctx, bad, "binding-demo", count=False)
+    muts += [(empty_module, "NoEmptyModules")]
+    bad = [mut(good, f) for f, _ in muts]
+    vs = validate_documents(ctx, [good] + bad, "binding-demo", count=False)
+    if vs[0][0] != "ACC":
+        raise MachineryError("binding demo: the reference document is rejected: %r" % (vs[0],))
+    vs = vs[1:]
     report = []
     for (f, clause), v in zip(muts, vs):
         report.append([f.__name__, v[0], v[2] if v[0] == "REJ" else ""])
@@ -811,7 +852,7 @@ def run(ctx):
                         "modules": [m["name"] for m in json.loads(docs[i])["mods"]]})
 
     # ---- binding: doctored documents must be rejected ---------------------------------------------------------
-    _binding_demo(ctx, docs, verdicts)
+    _binding_demo(ctx)
     t0 = _t(ctx, "binding demo", t0)
 
     ctx.cov["exhaustive"] = False
